@@ -281,7 +281,22 @@ func checkC14(r *Result) []Violation {
 			got := reqs[ri : ri+len(group)]
 			ri += len(group)
 			used := make([]bool, len(got))
+			// first pair up the exact matches (two transfers may by chance carry the same first serial)
+			var rest []want
 			for _, w := range group {
+				exact := false
+				for gi, q := range got {
+					if !used[gi] && q.b.OrigSerial == w.x.serial1 && fmt.Sprint(q.b.Nos) == fmt.Sprint(w.missing) && q.ev.Step > w.step {
+						used[gi] = true
+						exact = true
+						break
+					}
+				}
+				if !exact {
+					rest = append(rest, w)
+				}
+			}
+			for _, w := range rest {
 				found := false
 				for gi, q := range got {
 					if used[gi] || q.b.OrigSerial != w.x.serial1 {
